@@ -254,16 +254,45 @@ def collect_apps(exprs, names):
     return out
 
 
+_AX_CACHE = {}      # expr id -> (expr kept alive, facts): instantiated background facts depend on the term only
+_SIMP_CACHE = {}
+
+
+def simp(e):
+    k = e.get_id()
+    hit = _SIMP_CACHE.get(k)
+    if hit is None:
+        hit = (e, z3.simplify(e))
+        _SIMP_CACHE[k] = hit
+    return hit[1]
+
+
+def _axioms_for(e):
+    k = e.get_id()
+    hit = _AX_CACHE.get(k)
+    if hit is None:
+        ax = []
+        done = set()
+        for t in collect_apps([e], ('str2float', 'str2int')):
+            sid = t.arg(0)
+            if sid.get_id() in done:
+                continue
+            done.add(sid.get_id())
+            ax += string_axioms_for(sid)
+        ax += list_lemmas([e])
+        hit = (e, ax)
+        _AX_CACHE[k] = hit
+    return hit[1]
+
+
 def ground_axioms(exprs):
-    """all instantiated background facts for a query over `exprs`"""
-    ax, done = [], set()
-    for t in collect_apps(exprs, ('str2float', 'str2int')):
-        sid = t.arg(0)
-        if sid.get_id() in done:
-            continue
-        done.add(sid.get_id())
-        ax += string_axioms_for(sid)
-    ax += list_lemmas(list(exprs))
+    """all instantiated background facts for a query over `exprs` (per-expression, cached)"""
+    ax, seen = [], set()
+    for e in exprs:
+        for f in _axioms_for(e):
+            if f.get_id() not in seen:
+                seen.add(f.get_id())
+                ax.append(f)
     return ax + interned_axioms()
 
 
@@ -299,23 +328,38 @@ def _twin(decl):
     return _TWINS[key]
 
 
+_DECL_CACHE = {}
+
+
+def _rec_decls(x):
+    k = x.get_id()
+    hit = _DECL_CACHE.get(k)
+    if hit is None:
+        decls = {}
+        seen, stack = set(), [x]
+        while stack:
+            e = stack.pop()
+            if e.get_id() in seen:
+                continue
+            seen.add(e.get_id())
+            if z3.is_app(e):
+                d = e.decl()
+                if d.kind() == z3.Z3_OP_RECURSIVE:
+                    decls[d.name()] = d
+                stack.extend(e.children())
+            elif z3.is_quantifier(e):
+                stack.append(e.body())
+        hit = (x, decls)
+        _DECL_CACHE[k] = hit
+    return hit[1]
+
+
 def abstract_recs(exprs):
     """replace every recursive function by an uninterpreted twin: the result is implied-weaker (fewer facts), so
     `unsat` of the abstracted query implies `unsat` of the original one, and `sat`/`unknown` decide nothing."""
     decls = {}
-    seen, stack = set(), list(exprs)
-    while stack:
-        e = stack.pop()
-        if e.get_id() in seen:
-            continue
-        seen.add(e.get_id())
-        if z3.is_app(e):
-            d = e.decl()
-            if d.kind() == z3.Z3_OP_RECURSIVE:
-                decls[d.name()] = d
-            stack.extend(e.children())
-        elif z3.is_quantifier(e):
-            stack.append(e.body())
+    for x in exprs:
+        decls.update(_rec_decls(x))
     if not decls:
         return list(exprs)
     subs = []
@@ -325,3 +369,38 @@ def abstract_recs(exprs):
         # de Bruijn: Var(0) is the LAST argument in substitute_funs templates
         subs.append((d, g(*[z3.Var(i, d.domain(i)) for i in range(n)])))
     return [z3.substitute_funs(e, *subs) for e in exprs]
+
+
+# --------------------------------------------------------------------------- "every element satisfies P" for cons lists
+class ForallList:
+    """AllP(l), defined by recursion from the END of the list (so appending unfolds by definition), together with the
+    instantiated consequences  AllP(l) & 0 <= k < length(l) => P(nth(l, k))  (provable by induction on l; pyvc/listlib.py)."""
+    _made = {}
+
+    def __init__(self, name, pred):
+        self.name, self.pred = 'All_' + name, pred
+        l = z3.Const('fl_', VL)
+        self.fn = z3.RecFunction(self.name, VL, BoolS)
+        z3.RecAddDefinition(self.fn, [l], self._body(l))
+        UNFOLD[self.name] = self._body
+        LEMMA_HOOKS.append(self._hook)
+        ForallList._made[self.name] = self
+
+    def _body(self, l):
+        n = length(l)
+        return z3.If(n <= 0, True, z3.And(self.fn(take(l, n - 1)), self.pred(nth(l, n - 1))))
+
+    def __call__(self, l):
+        return self.fn(l)
+
+    def _hook(self, e, n):
+        if n == 'nth':
+            l, k = e.arg(0), e.arg(1)
+            return [z3.Implies(z3.And(self.fn(l), k >= 0, k < length(l)), self.pred(e))]
+        if n == self.name:
+            l = e.arg(0)
+            out = [z3.Implies(VL.is_nil(l), e)]
+            if z3.is_app(l) and l.decl().name() == 'app':
+                out.append(e == z3.And(self.fn(l.arg(0)), self.fn(l.arg(1))))
+            return out
+        return []
